@@ -66,6 +66,14 @@ Subscribe ==
             /\ log' = log \o SubOutF(m)
             /\ h' = Append(h, [do |-> "sub", src |-> 0, n |-> C({}), exp |-> Obs(SubOutF(m), FALSE, s2)])
             /\ UNCHANGED closed
+       ELSE IF sync.k = "U"
+       THEN \* the DOWNSTREAM subscriber unsubscribes while source sync.s is being subscribed (a cut in the middle of the operator's
+            \* subscription phase): everything is released, also what the operator subscribes later in the same phase
+            LET s3 == [s2 EXCEPT !.done = TRUE, !.torn = @ \cup (s2.live \ s2.ended), !.live = {}] IN
+            /\ st' = s3
+            /\ log' = log \o SubOutF(m)
+            /\ closed' = TRUE
+            /\ h' = Append(h, [do |-> "sub", src |-> sync.s, n |-> C({}), exp |-> Obs(SubOutF(m), TRUE, s3)])
        ELSE \* the terminal of the synchronous source is processed with every source subscribed (a source the operator no longer needs
             \* may also never be subscribed at all - the replayer accepts both; what it never accepts is a source left subscribed)
             LET a == Cut(ArriveF(m, s2, FALSE, sync.s, SyncNotif)) IN
@@ -88,7 +96,7 @@ Push(s, n) ==
   /\ UNCHANGED <<m, phase, unsub, psrc, sync, tail>>
 
 Unsub ==
-  /\ Cuts /\ phase = "run" /\ ~unsub /\ Len(h) <= MaxSteps
+  /\ Cuts /\ phase = "run" /\ ~unsub /\ sync.k # "U" /\ Len(h) <= MaxSteps
   /\ LET s2 == [st EXCEPT !.done = TRUE, !.torn = @ \cup (st.live \ st.ended), !.live = {}] IN
      /\ st' = s2
      /\ h' = Append(h, [do |-> "unsub", src |-> 0, n |-> C({}), exp |-> Obs(IF closed THEN <<>> ELSE UnsubOutF(m, st), TRUE, s2)])
@@ -101,7 +109,7 @@ Notifs(s) == {N(10 * s + sent[s], SubCtx \cup {Mark(s, sent[s])}), E(s, SubCtx \
 Next == Subscribe \/ Unsub \/ \E s \in Srcs : \E n \in Notifs(s) : Push(s, n)
 Spec == Init /\ [][Next]_vars
 
-Done == phase = "run" /\ (Len(h) = MaxSteps + 1 \/ ((\A s \in Srcs : s \in st.ended \/ sent[s] >= MaxPerSrc) /\ (~Cuts \/ unsub)))
+Done == phase = "run" /\ (Len(h) = MaxSteps + 1 \/ ((\A s \in Srcs : s \in st.ended \/ sent[s] >= MaxPerSrc) /\ (~Cuts \/ unsub \/ sync.k = "U")))
 
 (* ------------------------------ properties ----------------------------- *)
 \* (inner deliveries of higher-order outputs, kinds "I" / "IC", are not part of the outer grammar)
@@ -111,5 +119,5 @@ Grammar == \A j \in 1..Len(Outer) : j < Len(Outer) => Outer[j].k = "N"
 ClosedReleasesAll == closed => st.live = {}
 TypeOK == st.live \cap st.torn = {} /\ st.live \cap st.ended = {}
 
-EmitCase == Done => PrintT(ToJson([m |-> m, steps |-> h, panic |-> psrc, sync |-> sync.s, tail |-> tail]))
+EmitCase == Done => PrintT(ToJson([m |-> m, steps |-> h, panic |-> psrc, sync |-> sync.s, synck |-> sync.k, tail |-> tail]))
 =============================================================================
